@@ -31,6 +31,9 @@ def exc_name(e):
     return "pyexc:" + n
 
 
+SAMPLE_BUF = []
+
+
 class Sess:
     """Runs the same operations on the implementation (now) and on the model driver (at finish)."""
 
@@ -56,6 +59,10 @@ class Sess:
             if a is not None and a != b:
                 dis.append({"index": i, "op": l, "impl": a, "model": b, "meta": self.meta[i]})
         self.model = model
+        n = len(self.lines)
+        for i in sorted(set([min(n - 1, 1), n // 3, (2 * n) // 3, n - 1])) if n else []:
+            if len(SAMPLE_BUF) < 8 and self.impl[i] is not None:
+                SAMPLE_BUF.append({"op": self.lines[i][:240], "implementation": str(self.impl[i])[:240], "model": str(model[i])[:240]})
         return dis
 
 
